@@ -21,6 +21,8 @@ def ipv4DefaultTtl : Nat := 30
 def ipv4BaseOctets : Nat := 20
 def ipv4FragmentOffsetMask : Nat := 8191
 def ipv4SerializeSubtractsBaseOctets : Bool := true
+/-- `Ipv4Header::from_bytes` rejects `total_length < ihl * 4` -/
+def ipv4DecoderRejectsShortTotalLength : Bool := true
 def arpResendTries : Nat := 10
 def arpResendDelayMs : Nat := 200
 end Elvis.Gen
